@@ -82,6 +82,20 @@ def failed_call_noise(res: Result, cls: type, spec: describe.StructSpec, tree: d
             entity_reader(cls)(io.BytesIO(wire[: rng.randrange(len(wire))]))
     except Exception:  # noqa: BLE001
         pass
+    if len(spec.tagged) >= 2:
+        # the same, aimed: every tagged field is on the wire and the input ends inside the tagged section, after at least one tagged field
+        # has been read completely - whatever the reader collected for this message must not be there for the next one
+        try:
+            full = gen.Gen(rng, "canonical", big_prob=0.0).all_tags_nondefault(spec)
+            if full is not None:
+                wire, layout = refcodec.encode(spec, full)
+                own = [off for off, _, role, path in layout if role == "tag" and path.count(".") == 1 and "[" not in path]
+                if len(own) >= 2:
+                    cut = rng.choice(own[1:]) + rng.choice((0, 1))
+                    res.count("failed_call_noise_inside_tagged_section")
+                    entity_reader(cls)(io.BytesIO(wire[:cut]))
+        except Exception:  # noqa: BLE001
+            pass
     try:
         inst = describe.tree_to_instance(spec, tree)
         probe = WriteOnlySink()
